@@ -34,6 +34,10 @@ CHECKS = [
      "text": "Lean theorems over exact rationals, every subset of settings supplied, every value: if the checks do not raise, every supplied value lies in its documented domain and supplied pairs are in the documented order (contrapositive: out-of-domain values raise ValueError), the completed settings satisfy all documented relations, supplied values are kept, absent ones take the defaults; the defaults (regenerated table) are valid and equal the documented ones (decide). The same definitions run on Float are compared exactly (messages and completed values) with the real minimize on the boundary lattice of every setting, the coupled pairs and random subsets.",
      "note": "Theorems are about lean/CobyqaVerif/Model/Settings.lean over Rat; Gen/Settings.lean is regenerated from settings.py / the docstring by harness/translate.py on every run. Rounding is outside the theorems and visible only in the Float correspondence (one known finding: increase_radius_factor = nextafter(1)). Boolean settings and NaN values are not modelled. Trusted: Lean kernel + 3 standard axioms, translator, harness.",
      "technique": "Lean 4 proof over Q (case analysis + linear arithmetic) + generated tables + differential correspondence"},
+    {"id": "C18", "level": "proof",
+     "text": "Lean theorems over exact rationals for constants anywhere in their documented domains, arbitrary ratios and step norms, any sequence of operations: radius_final <= resolution <= radius after the setter, update_radius, the short-step reduction and enhance_resolution; the resolution never increases and strictly decreases above radius_final; fitted initial radii ordered; penalty stays non-negative; after set_best_index the centre has least merit up to one tolerance per tolerance switch; the centre is never the argmax chosen for replacement unless every score vanishes. The rules are compared bit-for-bit with a real TrustRegion object on a grid and along real runs (every radius change, best-index scan and index-to-remove choice).",
+     "note": "Theorems are about lean/CobyqaVerif/Model/Radius.lean over Rat (sqrt abstract: nonneg, squares back). Binary64: same definitions run on Float agree bit-for-bit with framework.py on everything sampled; the invariants are also evaluated on the implementation's own values. Not proved: the logarithmic bound on the number of reductions, finiteness of the penalty (monitored). Trusted: Lean kernel + 3 standard axioms, harness.",
+     "technique": "Lean 4 proof over Q (invariants of the radius state machine, scan and argmax lemmas) + differential correspondence + trace validation"},
 ]
 NOT_APPLICABLE = [{"property_id": f"C{i:02d}", "reason": _PENDING} for i in range(1, 21) if f"C{i:02d}" not in {c["id"] for c in CHECKS}]
 ENGINES[0]["serves_properties"] = [c["id"] for c in CHECKS]
